@@ -103,8 +103,12 @@ def run(ctx, model_ok=True):
                 want = [l for l in exp[1] if l.strip()]
                 want.sort(key=lambda l: int(re.match(r'\s*(\d+)', l).group(1)))
                 have = [l for l in got.replace('\r\n', '\n').split('\n') if l.strip()]
+                blanks_in = sum(1 for l in c['src'].replace('\r\n', '\n').split('\n')[:-1] if not l.strip())
+                blanks_out = sum(1 for l in got.replace('\r\n', '\n').split('\n')[:-1] if not l.strip())
                 if have != want:
                     fail = ('wrong-text-after-move', f"non-blank lines differ: got {have[:4]!r} expected {want[:4]!r}")
+                elif blanks_out != blanks_in and c['src'].endswith('\n'):
+                    fail = ('blank-line-added-by-move', f"the source has {blanks_in} blank lines, the result {blanks_out}: a move may not add or drop lines")
                 else:
                     stats['accepted with move, lines exact'] += 1
         if fail:
